@@ -26,16 +26,141 @@ GRID = {
     "thorough": [("full-rel", ["--depth", "6", "--set", "full"]), ("full-dbg", ["--depth", "5", "--set", "full"]), ("nofin-rel", ["--depth", "5", "--set", "full"]), ("min-dbg", ["--depth", "5", "--set", "full"])],
 }
 
+FWD = {"quick": [("full-dbg", []), ("full-rel", [])], "thorough": [("full-dbg", []), ("full-rel", []), ("min-rel", [])]}
+
+PROBES = {"quick": [("full-dbg", [])], "thorough": [("full-dbg", []), ("full-rel", []), ("nofin-rel", []), ("min-dbg", [])]}
+CONTAINERS = {
+    "quick": [("full-dbg", ["--depth", "5"])],
+    "thorough": [("full-rel", ["--depth", "6", "--set", "full"]), ("full-dbg", ["--depth", "5", "--set", "full"]), ("nofin-rel", ["--depth", "5", "--set", "full"])],
+}
+
 ENGINES = {
     "C03": [sub_runs("grid", GRID)],
     "C13": [sub_runs("grid", GRID)],
     "C15": [sub_runs("policy", POLICY)],
-    "C20": [sub_runs("grid", GRID)],
+    "C17": [sub_runs("probes", PROBES), sub_runs("containers", CONTAINERS)],
+    "C20": [sub_runs("grid", GRID), sub_runs("fwd", FWD)],
 }
 
 SETUP = []
 
 
+
+
+# ---------------------------------------------------------------------------------------------------------------
+# C18: derive macros. Bounded-exhaustive enumeration of type definitions (generated source, compiled against
+# /repo/derive, executed) + compile probes for the Drop emission.
+# ---------------------------------------------------------------------------------------------------------------
+import json
+import os
+import re
+import shutil
+import subprocess
+import time
+
+
+def _cargo(args, cwd, target):
+    e = driver.env_offline()
+    e["CARGO_TARGET_DIR"] = target
+    return subprocess.run(["cargo"] + args + ["--offline"], cwd=cwd, env=e, stdout=subprocess.PIPE, stderr=subprocess.PIPE, text=True)
+
+
+def derive_engine(prop, tier, seed, out, known):
+    t0 = time.time()
+    root = driver.ROOT
+    work = os.path.join(driver.BUILD, "derive-" + tier)
+    target = os.path.join(driver.BUILD, "derive-target-" + tier)
+    os.makedirs(work, exist_ok=True)
+    g = subprocess.run(["python3", os.path.join(root, "lib", "gen_derive.py"), work, tier], stdout=subprocess.PIPE, text=True)
+    ntypes, nvalues = [int(x) for x in g.stdout.split()]
+    shutil.copy("/repo/Cargo.lock", os.path.join(work, "Cargo.lock"))
+    run = {"config": "derive-check crate (rust-cc default features + derive)", "lens": "derive", "lens_args": "gen_derive.py " + tier, "states": ntypes, "transitions": nvalues,
+           "executions": nvalues, "fixpoint": True, "cut_reason": None, "samples": [], "vacuity": {}, "scope": {"types": ntypes, "values": nvalues}, "wall_s": 0}
+    viol = []
+    b = _cargo(["build"], work, target)
+    if b.returncode != 0:
+        errs = [l for l in b.stderr.splitlines() if l.startswith("error")][:5]
+        viol.append(("derive-compile", "the generated type definitions (valid shapes with derive(Trace, Finalize)) do not compile: " + " | ".join(errs)))
+    else:
+        r = subprocess.run([os.path.join(target, "debug", "derive-check")], stdout=subprocess.PIPE, stderr=subprocess.PIPE, text=True)
+        head = [l for l in r.stdout.splitlines() if l.startswith("TYPES")]
+        if not head:
+            viol.append(("derive-run", "the derive check binary crashed: " + r.stderr[-300:]))
+        else:
+            w = head[0].split()
+            run["vacuity"] = {"types": int(w[1]), "values": int(w[3]), "trace_invocations": int(w[5]), "probes": int(w[7])}
+            run["executions"] = int(w[5])
+        for l in r.stdout.splitlines():
+            if l.startswith("VIOLATION "):
+                m = l[len("VIOLATION "):]
+                if m.startswith("MACHINERY"):
+                    out.machinery.append(m)
+                else:
+                    viol.append(("derive-visit", m))
+        run["samples"] = ["struct SN3M5 { #[rust_cc(ignore)] f0: Probe, f1: Vec<Probe>, #[rust_cc(ignore)] f2: Option<Probe> } (mask 0b101)",
+                          "enum E<k> with variants drawn from {unit, tuple1, tuple2, named1, named2, tuple2 with ignored field, named2 with ignored field, ignored variant}"]
+    # compile probes
+    pdir = os.path.join(driver.BUILD, "derive-probes")
+    os.makedirs(os.path.join(pdir, "src", "bin"), exist_ok=True)
+    open(os.path.join(pdir, "Cargo.toml"), "w").write(open(os.path.join(root, "derive_check", "Cargo.toml.in")).read().replace('name = "derive-check"', 'name = "derive-probes"'))
+    shutil.copy(os.path.join(root, "derive_check", "conflict.rs.in"), os.path.join(pdir, "src", "lib.rs"))
+    shutil.copy(os.path.join(root, "derive_check", "nodrop.rs.in"), os.path.join(pdir, "src", "bin", "nodrop.rs"))
+    shutil.copy("/repo/Cargo.lock", os.path.join(pdir, "Cargo.lock"))
+    ptarget = os.path.join(driver.BUILD, "derive-target-probes")
+    c = _cargo(["build", "--lib", "--message-format=json"], pdir, ptarget)
+    codes = []
+    for line in c.stdout.splitlines():
+        try:
+            j = json.loads(line)
+        except Exception:
+            continue
+        if j.get("reason") == "compiler-message" and j["message"].get("level") == "error":
+            code = (j["message"].get("code") or {}).get("code")
+            codes.append(code)
+    expected = len(re.findall(r"^impl.* Drop for ", open(os.path.join(pdir, "src", "lib.rs")).read(), flags=re.M))
+    n119 = sum(1 for x in codes if x == "E0119")
+    other = [x for x in codes if x not in ("E0119", None)]
+    if n119 != expected or other:
+        viol.append(("derive-drop", "user-written Drop on %d derived types: rustc reported %d E0119 conflicts (expected %d) and other errors %s - the derive no longer forbids a custom Drop" % (expected, n119, expected, other[:3])))
+    # the nodrop probe is a separate package build (the lib above does not compile by design): build it alone
+    ndir = os.path.join(driver.BUILD, "derive-nodrop")
+    os.makedirs(os.path.join(ndir, "src"), exist_ok=True)
+    open(os.path.join(ndir, "Cargo.toml"), "w").write(open(os.path.join(root, "derive_check", "Cargo.toml.in")).read().replace('name = "derive-check"', 'name = "derive-nodrop"'))
+    shutil.copy(os.path.join(root, "derive_check", "nodrop.rs.in"), os.path.join(ndir, "src", "main.rs"))
+    shutil.copy("/repo/Cargo.lock", os.path.join(ndir, "Cargo.lock"))
+    n = _cargo(["build"], ndir, ptarget)
+    if n.returncode != 0:
+        viol.append(("derive-nodrop", "types with #[rust_cc(unsafe_no_drop)] and a user-written Drop do not compile: " + " | ".join([l for l in n.stderr.splitlines() if l.startswith("error")][:3])))
+    else:
+        r = subprocess.run([os.path.join(ptarget, "debug", "derive-nodrop")], stdout=subprocess.PIPE, text=True)
+        if "DROPS 5" not in r.stdout:
+            viol.append(("derive-nodrop", "user-written Drop of unsafe_no_drop types ran %s (expected 'DROPS 5')" % r.stdout.strip()))
+    run["vacuity"]["drop_conflict_probes"] = expected
+    run["vacuity"]["e0119_reported"] = n119
+    run["wall_s"] = round(time.time() - t0, 1)
+    out.runs.append(run)
+    for kind, msg in viol[:5]:
+        v = {"property": "C18", "predicate": "P-derive", "message": msg}
+        k = driver.match_known(prop, v, known)
+        if k:
+            out.known.append("%s (%s)" % (k.get("id", "?"), msg))
+        else:
+            os.makedirs(driver.REPLAYS, exist_ok=True)
+            path = os.path.join(driver.REPLAYS, "C18-%s.json" % kind)
+            json.dump({"property": "C18", "engine": "derive", "tier": tier, "violations": [v], "how_to_replay": "./check C18 --tier %s" % tier}, open(path, "w"), indent=1)
+            out.violations.append((path, "P-derive " + msg))
+    return {"derive_types": ntypes, "derive_values": nvalues}
+
+
+ENGINES["C18"] = [derive_engine]
+
+
 def replay(rp):
+    if rp.get("engine") == "derive":
+        o = driver.Outcome()
+        derive_engine("C18", rp.get("tier", "quick"), 0, o, [])
+        for p, m in o.violations:
+            print("VIOLATION property=C18 replay=%s\n  %s" % (p, m))
+        return 1 if o.violations else 0
     print("no engine replay registered")
     return 2
